@@ -4,6 +4,7 @@ import (
 	"fmt"
 	"go/token"
 	"go/types"
+	"strings"
 
 	"golang.org/x/tools/go/ssa"
 )
@@ -180,4 +181,44 @@ type TimerState struct {
 type HostObj struct {
 	Kind string
 	Data interface{}
+}
+
+// mapOrder: Go leaves the iteration order of a map unspecified. With the MapOrders option the order in which kevo's own
+// code (not the harness, not the standard library) walks a map of 2..3 entries is a choice point over all
+// permutations, and for a larger map over {insertion order, reversed}; without the option insertion order is used.
+var perms3 = [][]int{{0, 1, 2}, {0, 2, 1}, {1, 0, 2}, {1, 2, 0}, {2, 0, 1}, {2, 1, 0}}
+
+func (r *Run) mapOrder(fr *Frame, it *MapIter) {
+	if r.Opts == nil || !r.Opts.MapOrders || len(it.keys) < 2 || r.InInit != 0 {
+		return
+	}
+	fn := fr.fn
+	for fn.Parent() != nil {
+		fn = fn.Parent()
+	}
+	if fn.Pkg == nil || !strings.HasPrefix(fn.Pkg.Pkg.Path(), "github.com/KevoDB/kevo/") || strings.HasPrefix(fn.Name(), "Verif") || strings.Contains(fn.Pkg.Pkg.Path(), "zzverif") {
+		return
+	}
+	n := len(it.keys)
+	var perm []int
+	switch n {
+	case 2:
+		perm = [][]int{{0, 1}, {1, 0}}[r.decide(2, func(int) *Term { return nil })]
+	case 3:
+		perm = perms3[r.decide(6, func(int) *Term { return nil })]
+	default:
+		if r.decide(2, func(int) *Term { return nil }) == 0 {
+			return
+		}
+		for i := n - 1; i >= 0; i-- {
+			perm = append(perm, i)
+		}
+	}
+	r.MapOrderForks++
+	r.Choices = append(r.Choices, fmt.Sprintf("maporder@%s=%v", fn.Name(), perm))
+	ks, vs := make([]Value, n), make([]Value, n)
+	for i, j := range perm {
+		ks[i], vs[i] = it.keys[j], it.vals[j]
+	}
+	it.keys, it.vals = ks, vs
 }
